@@ -16,6 +16,7 @@ is a trusted table entry.
 """
 from pyvc.spec import REG, LoopSpec
 import specs.search  # noqa: Result
+import specs.mst  # noqa: check_positive
 
 K_ = "solvor/knapsack.py"
 V_ = "solvor/utils/validate.py"
@@ -116,3 +117,56 @@ REG.fn(K_, "solve_knapsack", prop="C16", ret="Result[list[int]]", raises_ok=True
            8: LoopSpec(index="q", invariants=["implies(not int_typed(weights), _sum8 == Rr(weights, arr(sel0), len(sel0)) - Rr(weights, arr(sel0), len(sel0) - q))",
                                               "implies(int_typed(weights), _sum8 == Ri(weights, arr(sel0), len(sel0)) - Ri(weights, arr(sel0), len(sel0) - q))"]),
        })
+
+# ------------------------------------------------------------------ solve_bin_pack: the structural clauses of C16
+# Proved for every algorithm string (not interpreted: every branch is explored) and all inputs the function accepts:
+#   * every item gets a bin index in 0..k-1, k = number of bins opened = the objective;
+#   * no bin is ever overfull beyond the library's absolute slack: its remaining capacity stays >= -_EPS;
+#   * remaining capacity == capacity - (sum of the sizes placed into the bin), as a recursive spec sum over the processing order.
+# Not proved: the 11/9 bound and 'OPTIMAL only when minimal' (bounded back end).
+B_ = "solvor/bin_pack.py"
+BINS = "list[tuple[real,list[int]]]"
+# load of bin b after the first k items of the processing order `O` have been placed; Bn[t] (ghost) = the bin the t-th processed item went to
+REG.recfn("binload", [("S", "list[real]"), ("Bn", "map[int,int]"), ("O", "list[int]"), ("b", "int"), ("k", "int")], "real", on="k", base="0.0",
+          step="binload(S, Bn, O, b, k - 1) + (S[O[k - 1]] if Bn[k - 1] == b else 0.0)", group="binp")
+REG.lemma("binload_frame", ["S", "Bn", "O", "b", "k", "p", "v"],
+          "implies(p >= k, binload(S, store(Bn, p, v), O, b, k) == binload(S, Bn, O, b, k))",
+          kind="induction", on="k", group="binp", var_sorts={"S": "list[real]", "Bn": "map[int,int]", "O": "list[int]"},
+          trig=["binload(S, store(Bn, p, v), O, b, k)"])
+BPI = [
+    "n == len(item_sizes)", "n >= 1", "len(assignments) == n", "len(indices) == n", "bin_capacity > 0",
+    "forall(t, implies(0 <= t < n, 0 <= indices[t] < n), trig=indices[t])",
+    "forall(s, t, implies(0 <= s < t and t < n, indices[s] != indices[t]), trig=((indices[s], indices[t]),))",
+    "forall(i, implies(0 <= i < n, 0 <= item_sizes[i] <= bin_capacity), trig=item_sizes[i])",
+    # processed items sit in an opened bin
+    "forall(t, implies(0 <= t < q, 0 <= assignments[indices[t]] < len(bins) and assignments[indices[t]] == Bn[t]), trig=indices[t])",
+    # every entry of the answer is a bin index or still the initial 0 (which is a bin index as soon as one bin exists)
+    "forall(i, implies(0 <= i < n, 0 <= assignments[i] and (assignments[i] < len(bins) or assignments[i] == 0)), trig=assignments[i])",
+    # bins that are not opened yet hold nothing
+    "forall(b, implies(b >= len(bins), binload(item_sizes, Bn, indices, b, q) == 0), trig=binload(item_sizes, Bn, indices, b, q))",
+    # each bin: never overfull beyond the slack, and its remaining capacity is what its items leave
+    "forall(b, implies(0 <= b < len(bins), bins[b][0] < inf() and bins[b][0] >= -0.000000001 and bins[b][0] == bin_capacity - binload(item_sizes, Bn, indices, b, q)), trig=bins[b])",
+]
+REG.fn(B_, "solve_bin_pack", prop="C16", ret="Result[list[int]]", raises_ok=True, lemmas=["binp"], shards=6,
+       types={"item_sizes": "list[real]", "bin_capacity": "real", "algorithm": "opaque", "algo": "opaque", "bins": BINS,
+              "assignments": "list[int]", "indices": "list[int]", "items": "list[int]", "remaining": "real", "best_remaining": "real", "Bn": "map[int,int]"},
+       ghost_before=[("assignments = [0] * n", "Bn", "lam(t, 0)")],
+       ghost_after=[("assignments[item_idx] = ", "Bn", "store(Bn, q, assignments[item_idx])")],
+       requires=["bin_capacity < inf()", "forall(i, implies(0 <= i < len(item_sizes), -inf() < item_sizes[i] and item_sizes[i] < inf()), trig=item_sizes[i])"],
+       ensures=[
+           "implies(len(item_sizes) == 0, len(result.solution) == 0 and result.objective == 0)",
+           "implies(defined('bins'), len(result.solution) == len(item_sizes) and result.objective == len(bins))",
+           "implies(defined('bins'), forall(i, implies(0 <= i < len(item_sizes), 0 <= result.solution[i] < len(bins)), trig=result.solution[i]))",
+           "implies(defined('bins'), forall(b, implies(0 <= b < len(bins), binload(item_sizes, Bn, indices, b, len(item_sizes)) <= bin_capacity + 0.000000001), trig=bins[b]))",
+           "implies(defined('bins'), forall(t, implies(0 <= t < len(item_sizes), 0 <= indices[t] < len(item_sizes) and result.solution[indices[t]] == Bn[t]), trig=indices[t]))",
+           "implies(defined('bins'), forall(s, t, implies(0 <= s < t and t < len(item_sizes), indices[s] != indices[t]), trig=((indices[s], indices[t]),)))",
+           "implies(defined('bins'), result.status == (2 if len(bins) > 1 else 1))",
+       ],
+       loops={1: LoopSpec(index="q0", invariants=["n == len(item_sizes)", "bin_capacity > 0",
+                                                   "forall(i, implies(0 <= i < q0, 0 <= item_sizes[i] <= bin_capacity), trig=item_sizes[i])"]),
+              2: LoopSpec(index="q", invariants=BPI),
+              3: LoopSpec(index="qb", invariants=BPI + ["size == item_sizes[item_idx]", "item_idx == indices[q]", "0 <= q < n", "size > 0", "-1 <= best_bin < len(bins)",
+                                                        "implies(best_bin >= 0, size <= bins[best_bin][0] + 0.000000001)"]),
+              4: LoopSpec(index="qb", invariants=BPI + ["size == item_sizes[item_idx]", "item_idx == indices[q]", "0 <= q < n", "size > 0", "-1 <= best_bin < len(bins)",
+                                                        "implies(best_bin >= 0, size <= bins[best_bin][0] + 0.000000001)"]),
+              })
